@@ -46,24 +46,23 @@ theorem Inv.no_link_tracked {w : World} (h : Inv S v0 w) : ∀ p i, (p, some i) 
   obtain ⟨k, hk, rfl⟩ := h.keys p _ hm
   rcases h.ts_kind hk (h.mem_iff.mp hm) with e | e <;> rw [hkind] at e <;> cases e
 
+/-- under the invariant every key tracked as a regular file has its copy, a regular file, in the
+backup: the `RemoveAll` branch of `restoreFile` is dead and the footprint is the named one -/
+theorem Inv.copies_intact {w : World} (h : Inv S v0 w) : CopiesIntact (S.view .backup w.fs) w.infos := by
+  rintro k i ⟨hk, _, hm⟩ hkind
+  obtain ⟨c, mt', _, hb⟩ := h.file_target hk (h.mem_iff.mp hm) hkind
+  exact ⟨c, mt', hb⟩
+
 /-- an untracked original lies outside the base footprint of the tracked map: it is not tracked
-itself, not below an original regular file, and not above a tracked directory (ancestors of tracked
-entries are tracked) -/
+itself and not above a tracked directory (ancestors of tracked entries are tracked); nothing below
+a tracked regular file is in the footprint, the backup copies being intact -/
 theorem Inv.untracked_not_in_foot {w : World} (h : Inv S v0 w) {j : Key}
-    (hu : w.infos.lookup (kp j) = none) (hv : v0 j ≠ none) : ¬ BaseFoot w.infos j := by
-  rintro ⟨k, oi, ⟨hk, hne, hm⟩, ht⟩
+    (hu : w.infos.lookup (kp j) = none) (_hv : v0 j ≠ none) : ¬ BaseFoot (S.view .backup w.fs) w.infos j := by
+  intro hf
+  obtain ⟨k, oi, ⟨hk, hne, hm⟩, ht⟩ := hf.named h.copies_intact
   have hl := h.mem_iff.mp hm
-  rcases ht with rfl | ⟨i, rfl, hkind, hpre⟩ | ⟨i, rfl, hkind, hpre⟩
+  rcases ht with rfl | ⟨i, rfl, hkind, hpre⟩
   · rw [hu] at hl; cases hl
-  · obtain ⟨n, hn, hfor, _⟩ := h.ts_node hk hl
-    have hnd : ¬ v0.isDirAt k := by
-      rintro ⟨mt, hmt⟩
-      rw [hmt] at hn; cases hn
-      have := hfor.1
-      rw [hkind] at this; cases this
-    by_cases hjk : j = k
-    · subst hjk; rw [hu] at hl; cases hl
-    · exact hv (h.v0_below hnd j hpre hjk)
   · exact h.anc k i hk hl j hpre hu
 
 /-- **Rollback under a crash plan.** -/
@@ -71,7 +70,8 @@ theorem rollback_crash_dichotomy {w : World} (hinv : Inv S v0 w) {fl : List Faul
     S.G (rollback cfg (withFaults fl w)).1.fs ∧
     ((∀ k, k ≠ [] → S.view .base (rollback cfg (withFaults fl w)).1.fs k = v0 k) ∨
      ((∀ j, S.view .backup (rollback cfg (withFaults fl w)).1.fs j = S.view .backup w.fs j) ∧
-      ∀ j, ¬ BaseFoot w.infos j → S.view .base (rollback cfg (withFaults fl w)).1.fs j = S.view .base w.fs j)) := by
+      ∀ j, ¬ BaseFoot (S.view .backup w.fs) w.infos j →
+        S.view .base (rollback cfg (withFaults fl w)).1.fs j = S.view .base w.fs j)) := by
   have hkeys := hinv.keys
   have hroot := hinv.root_not_absent
   have hnolink := hinv.no_link_tracked
